@@ -646,7 +646,7 @@ def c25(idx: Index, rep: Report, tier: str) -> None:
 
     def _arc_sites(fn):
         g = cfg_of(fn)
-        st_ = [nd for nd in g.nodes if isinstance(nd.ast, ast.Assign) and isinstance(nd.ast.targets[0], ast.Subscript) and norm(nd.ast.targets[0].value) == "self._constraints"]
+        st_ = [nd for nd in g.nodes if isinstance(nd.ast, ast.Assign) and isinstance(nd.ast.targets[0], ast.Subscript) and norm(nd.ast.targets[0].value) == "self._constraints" and not (isinstance(nd.ast.value, ast.Constant) and nd.ast.value.value is None)]  # `= None` registers an event, it is no arc
         ch_ = {nd for nd, c in cfg_nodes_with_call(g, "_inc_check")}
         return g, st_, ch_
 
@@ -1053,8 +1053,18 @@ def c33(idx: Index, rep: Report, tier: str) -> None:
         if m is None:
             raise AnalysisError(f"{rule_e}: ProblemKind.{mname} vanished")
         unpacked = set()
+
+        def _is_equalize(v) -> bool:
+            """equalize_versions(…), or a private method of the class every answer of which is that call"""
+            if isinstance(v, ast.Call) and call_name(v) == "equalize_versions":
+                return True
+            if isinstance(v, ast.Call) and isinstance(v.func, ast.Attribute) and norm(v.func.value) in ("self", "ProblemKind") and v.func.attr in pk.methods and v.func.attr.startswith("_"):
+                rets_ = [x for x in walk_no_nested(pk.methods[v.func.attr].node) if isinstance(x, ast.Return)]
+                return bool(rets_) and all(isinstance(x.value, ast.Call) and call_name(x.value) == "equalize_versions" for x in rets_)
+            return False
+
         for a in walk_no_nested(m.node):
-            if isinstance(a, ast.Assign) and isinstance(a.targets[0], ast.Tuple) and isinstance(a.value, ast.Call) and call_name(a.value) == "equalize_versions" and len(a.targets[0].elts) == 3 and isinstance(a.targets[0].elts[2], ast.Name):
+            if isinstance(a, ast.Assign) and isinstance(a.targets[0], ast.Tuple) and _is_equalize(a.value) and len(a.targets[0].elts) == 3 and isinstance(a.targets[0].elts[2], ast.Name):
                 unpacked.add(a.targets[0].elts[2].id)
         for r in walk_no_nested(m.node):
             if not (isinstance(r, ast.Return) and isinstance(r.value, ast.Call) and call_name(r.value) == "ProblemKind"):
@@ -1809,6 +1819,17 @@ class _OrderInterp:
             elif isinstance(s, ast.AnnAssign) and isinstance(s.target, ast.Name):
                 if s.value is not None:
                     env[s.target.id] = self._expr(s.value, env)
+            elif isinstance(s, ast.AugAssign) and isinstance(s.target, ast.Subscript) and isinstance(s.op, (ast.Add, ast.Sub)):
+                base, key, v = self._expr(s.target.value, env), self._expr(s.target.slice, env), self._expr(s.value, env)
+                if isinstance(base, dict) and key not in base:
+                    raise _Raised(f"KeyError: {key}")
+                base[key] = base[key] + v if isinstance(s.op, ast.Add) else base[key] - v
+            elif isinstance(s, ast.Delete) and all(isinstance(t, ast.Subscript) and not isinstance(t.slice, ast.Slice) for t in s.targets):
+                for t in s.targets:
+                    base, key = self._expr(t.value, env), self._expr(t.slice, env)
+                    if isinstance(base, dict) and key not in base:
+                        raise _Raised(f"KeyError: {key}")
+                    del base[key]
             elif isinstance(s, ast.AugAssign) and isinstance(s.target, ast.Name) and isinstance(s.op, (ast.BitOr, ast.BitAnd, ast.Add, ast.Sub)):
                 if s.target.id not in env:
                     raise self.Unsupported("name " + s.target.id)
@@ -1984,6 +2005,17 @@ class _OrderInterp:
                 raise self.Unsupported(norm(e)[:60])
         if isinstance(e, ast.Set):
             return {self._expr(x, env) for x in e.elts}
+        if isinstance(e, ast.Dict) and all(k is not None for k in e.keys):
+            return {self._expr(k, env): self._expr(v, env) for k, v in zip(e.keys, e.values)}
+        if isinstance(e, ast.DictComp) and len(e.generators) == 1 and isinstance(e.generators[0].target, (ast.Name, ast.Tuple)):
+            g = e.generators[0]
+            outd = {}
+            for x in list(self._expr(g.iter, env)):
+                env2 = dict(env)
+                self._bind(g.target, x, env2)
+                if all(self._expr(c, env2) for c in g.ifs):
+                    outd[self._expr(e.key, env2)] = self._expr(e.value, env2)
+            return outd
         if isinstance(e, ast.Call) and isinstance(e.func, ast.Attribute) and not e.keywords:
             try:
                 base = self._expr(e.func.value, env)
@@ -1992,6 +2024,16 @@ class _OrderInterp:
             if isinstance(base, dict) and e.func.attr == "get":
                 a = [self._expr(x, env) for x in e.args]
                 return base.get(a[0], a[1] if len(a) > 1 else None)
+            if isinstance(base, dict) and e.func.attr == "setdefault" and len(e.args) == 2:
+                a = [self._expr(x, env) for x in e.args]
+                return base.setdefault(a[0], a[1])
+            if isinstance(base, dict) and e.func.attr == "pop" and 1 <= len(e.args) <= 2:
+                a = [self._expr(x, env) for x in e.args]
+                if len(a) == 1 and a[0] not in base:
+                    raise _Raised(f"KeyError: {a[0]}")
+                return base.pop(*a)
+            if isinstance(base, dict) and e.func.attr == "values" and not e.args:
+                return list(base.values())
             if isinstance(base, set) and e.func.attr in ("add", "discard"):
                 getattr(base, e.func.attr)(self._expr(e.args[0], env))
                 return None
